@@ -13,6 +13,8 @@ import Ivy.Drv.Wait
 import Ivy.Drv.Event
 import Ivy.Drv.Signal
 import Ivy.Drv.Raw
+import Ivy.Drv.FdPoll
+import Ivy.Drv.FdEpoll
 
 def main (args : List String) : IO UInt32 := do
   match args with
@@ -31,4 +33,6 @@ def main (args : List String) : IO UInt32 := do
   | ["event"] => Ivy.Drv.Event.run; return 0
   | ["signal"] => Ivy.Drv.Signal.run; return 0
   | ["raw"] => Ivy.Drv.Raw.run; return 0
+  | ["fdpoll"] => Ivy.Drv.FdPoll.run; return 0
+  | ["fdepoll"] => Ivy.Drv.FdEpoll.run; return 0
   | _ => IO.eprintln "usage: ivyreplay <component>"; return 2
